@@ -36,6 +36,26 @@ def run(tier, seed):
         bad = dict(r["modules"][0], seq=gen.mutate(r["modules"][0]["seq"][:10], rng) + r["modules"][0]["seq"][10:][::-1])
         recipes.append(dict(r, modules=[bad] + r["modules"][1:], repeat=True))
         recipes.append(dict(r, vector=dict(r["vector"], seq=r["vector"]["seq"][: len(r["vector"]["seq"]) // 2]), repeat=True))
+    # (d) the failure comes from the citations themselves: a later input carries a dangling index or a citation that is not in
+    #     bracketed-index form (the call raises; the inputs resolved before it must be put back all the same)
+    import copy as _copy
+    for r in ac.real_family_cases(rng, 1 if q else 3, 3, annotate=True, refs=True, shuffle=False):
+        r = _copy.deepcopy(r)
+        cited = [x for x in [r["vector"]] + r["modules"] if any(f.get("cites") for f in x.get("feats", []))]
+        if len(cited) < 2:
+            continue
+        victim = cited[-1]
+        f = [f for f in victim["feats"] if f.get("cites")][-1]
+        how = rng.choice(["dangling", "zero", "round", "empty", "bare", "late"])
+        if how == "dangling":
+            f["cites"] = list(f["cites"]) + [len(victim.get("refs", [])) + rng.randint(1, 3)]
+        elif how == "zero":
+            f["cites"] = [len(victim.get("refs", [])) + 5]
+        elif how == "late":          # the second citation of a feature whose first one is fine
+            f["cites"] = [f["cites"][0], 99]
+        else:
+            f["cite_fmt"] = {"round": "(%d)", "empty": "[]%.0d", "bare": "%d"}[how]
+        recipes.append(dict(r, repeat=True))
     ac.validate(run, "calls-and-faults", recipes)
     run.extra["fault_points"] = sum(1 for r in recipes if r.get("fault"))
     # generic history fuzzer: live objects used again and again (wrap, query, rotate by 0, edit in place, assemble)
